@@ -201,9 +201,12 @@ impl ControlFlowGraph {
         self.next_temp_index == old(self).next_temp_index, self.ssa_form == old(self).ssa_form,
         it2.index@ == esq.len() ==> self.edges_imported(*old(self), *other, block_map@, minv, None),
 //@ before 0 `let new_head: usize`
+    broadcast use stdcoll::axiom_btreemap_index_req;
     let ghost pre = *self;
     proof {
         lemma_import_edges_fresh(*self, *old(self), *other, block_map@, minv, esq, it2.index@, done, epos, v1);
+        assert(*edge == *esq[it2.index@]);
+        assert(block_map@.contains_key(edge.head) && block_map@.contains_key(edge.tail));
     }
 //@ after 0 `self.graph.insert_edge(new_edge)?;`
     proof {
@@ -302,9 +305,12 @@ impl ControlFlowGraph {
         self.next_temp_index == old(self).next_temp_index, self.ssa_form == old(self).ssa_form,
         it2.index@ == esq.len() ==> self.edges_imported(*old(self), *other, block_map@, minv, None),
 //@ before 0 `let new_head: usize`
+    broadcast use stdcoll::axiom_btreemap_index_req;
     let ghost pre = *self;
     proof {
         lemma_import_edges_fresh(*self, *old(self), *other, block_map@, minv, esq, it2.index@, done, epos, v1);
+        assert(*edge == *esq[it2.index@]);
+        assert(block_map@.contains_key(edge.head) && block_map@.contains_key(edge.tail));
     }
 //@ after 0 `self.graph.insert_edge(new_edge)?;`
     proof {
